@@ -215,7 +215,15 @@ def check_limit_reads(chk):
                     cur = getattr(cur, '_parent', None)
                 fname = cur.name if cur is not None else '<module>'
                 if (modname, fname) == ('runtime', '_execute_script_helper'):
-                    chk.ok('C09.R', f"runtime._execute_script_helper reads '{LIMIT_KEY}' (the abort test)", trivial=True)
+                    st = n
+                    while st is not None and not isinstance(st, ast.stmt):
+                        st = getattr(st, '_parent', None)
+                    if isinstance(st, ast.Assign) and len(st.targets) == 1 and isinstance(st.targets[0], ast.Name):
+                        chk.ok('C09.R', f"runtime._execute_script_helper reads '{LIMIT_KEY}' into {st.targets[0].id} (used by the abort test)", trivial=True)
+                    else:
+                        chk.bad('C09.R', mod, fname, norm(st)[:100] if st is not None else norm(par)[:100],
+                                f"'{LIMIT_KEY}' is read outside the limit retrieval of the abort test: execution depends on the limit, so a run under a larger limit is no longer "
+                                f"identical to the unlimited run", node=n)
                 elif modname in ('bare', 'baredoc'):
                     chk.ok('C09.R', f'{modname}.{fname} mentions {LIMIT_KEY} (CLI configuration)', trivial=True)
                 else:
